@@ -33,6 +33,7 @@ run_demo() { # $1 = out dir ; returns demo exit status
 }
 for d in $SRC/C*/_out/[0-9]*; do
   id=$(echo $d | sed -E 's#.*/(C[0-9]+)/_out/([0-9]+)#\1-\2#')
+  [ -n "$IDOFF" ] && id=${id%-*}-$(( ${id##*-} + IDOFF ))
   [ -n "$ONLY" ] && [[ "$id" != $ONLY* ]] && continue
   [ -f "$d/patch.diff" ] || { echo "$id: no patch"; continue; }
   git -C $WT checkout -q -- . ; git -C $WT clean -fdq -e _demo.log
